@@ -19,11 +19,24 @@
                                                        table holds: every included file offers its first definition, the
                                                        smallest line wins, ties go to the first file in path order (the
                                                        documents outside the workspace, directory o/, sort before w/)
-   The server is started with exactly the checks 1, 2, 3, 4, 6, 10 enabled.
+     SK j `---@class T<j>`  declares the annotation class T<j> (j = 1, 2)
+                                                    -> type 18 "duplicate annotate type: T<j>" at its line when the project-wide
+                                                       type table (createTypeMap, merged from every analysed file) holds more
+                                                       than one declaration of T<j> (in this file or in any other)
+     ST j `---@type T<j>`   uses the annotation type -> type 18 "not define annotate type: T<j>" at its line when the table
+                                                       holds no declaration of T<j>
+   The table is part of the abstract cross-file analysis `cross`: it is recomputed from the texts of the files the pass
+   includes (rebuidCreateTypeMap + checkAllAnnotate at the end of HandleCheck / HandleFileEventChanges). In the list of a
+   file the annotation diagnostics come after the first-pass ones and before those of the third pass (GetAllFileErrorInfo);
+   the "not define" ones by line (RankCheckError), then the "duplicate" ones - the real server appends these while ranging
+   over the Go map createTypeMap, so their mutual order is not determined: harness/c08_server.go sorts that run by line, as
+   the toy analysis does.
+   The server is started with exactly the checks 1, 2, 3, 4, 6, 10, 18 enabled.
 
    The third component of an `err` (the tag) stands for everything the client is shown beyond type and start line: the
    columns and the message text. The toy analysis gives every distinct (columns, text) of a type its own tag:
      type 1, 4: 0      type 6: the required file      type 2, 3: k for g<k>, gf_tag for gf      type 10: n
+     type 18: 10 + j (not define T<j>), 20 + j (duplicate T<j>)
    ocaml/c08_run.ml renders the tag back to "<start col>,<end line>,<end col>:<message>" and prints a hash of that string;
    the implementation leg prints the same hash of what the real server published, so the correspondence check compares
    columns and message texts on every case. *)
@@ -32,12 +45,12 @@ From LH Require Import Model.Diag Model.Events Spec.FreshStart.
 Import ListNotations.
 Local Open Scope N_scope.
 
-Inductive stmt := SL | SC | SS | SD (k : N) | SU (k : N) | SR (f : file) | SF (n : N) | SG.
+Inductive stmt := SL | SC | SS | SD (k : N) | SU (k : N) | SR (f : file) | SF (n : N) | SG | SK (j : N) | ST (j : N).
 
 Definition stmt_eqb (a b : stmt) : bool :=
   match a, b with
   | SL, SL | SC, SC | SS, SS | SG, SG => true
-  | SD x, SD y | SU x, SU y | SR x, SR y | SF x, SF y => x =? y
+  | SD x, SD y | SU x, SU y | SR x, SR y | SF x, SF y | SK x, SK y | ST x, ST y => x =? y
   | _, _ => false
   end.
 Fixpoint stmts_eqb (a b : list stmt) : bool :=
@@ -96,6 +109,27 @@ Definition name_errs (i : N) (own : list N) (elsewhere : bool) (tag : N) : list 
   else if negb (is_nil own) then [(3, i, tag)]
   else if elsewhere then [] else [(2, i, tag)].
 
+(* ---- annotation types (check 18) ---- *)
+Definition undef_tag (j : N) : N := 10 + j.
+Definition dup_tag (j : N) : N := 20 + j.
+
+(* the lines on which a text declares the class T<j>; createTypeMap[T<j>] = the declarations of all the files *)
+Definition class_lines (j : N) (t : list stmt) : list N :=
+  flat_map (fun p => match snd p with SK i => if i =? j then [fst p] else [] | _ => [] end) (numbered 0 t).
+Definition class_decls (ps : list (file * list stmt * list (option file))) (j : N) : list N :=
+  flat_map (fun x => class_lines j (snd (fst x))) ps.
+
+(* checkAllAnnotate on one text against the table of ps *)
+Definition toy_ann (ps : list (file * list stmt * list (option file))) (t : list stmt) : list err :=
+  flat_map (fun p => match snd p with
+                     | ST j => if is_nil (class_decls ps j) then [(18, fst p, undef_tag j)] else []
+                     | _ => []
+                     end) (numbered 0 t) ++
+  flat_map (fun p => match snd p with
+                     | SK j => match class_decls ps j with _ :: _ :: _ => [(18, fst p, dup_tag j)] | _ => [] end
+                     | _ => []
+                     end) (numbered 0 t).
+
 Definition toy_cross (ps : list (file * list stmt * list (option file))) (f : file) : list err :=
   let defs := toy_defs ps in
   let gg := gf_global ps in
@@ -103,6 +137,7 @@ Definition toy_cross (ps : list (file * list stmt * list (option file))) (f : fi
   | Some x =>
     let t := snd (fst x) in
     let own_gf := match gf_first t with Some (ln, _) => [ln] | None => [] end in
+    toy_ann ps t ++
     flat_map (fun p => match snd p with
                        | SU k => name_errs (fst p) (def_lines k t) (existsb (N.eqb k) defs) k
                        | SG => name_errs (fst p) own_gf (match gg with Some _ => true | None => false end) gf_tag ++
@@ -118,10 +153,17 @@ Definition toy_cross (ps : list (file * list stmt * list (option file))) (f : fi
 
 (* files 0..3 = a b c d inside the workspace, 4 5 = p q outside *)
 Definition toy_in_dir (f : file) : bool := f <? 4.
+(* multi-root workspace (configuration letter f of the case format): the directory of p q is a second workspace folder *)
+Definition toy_all_in (f : file) : bool := true.
 
-Definition toyA : analysis :=
+(* the toy analysis over a given DirManager.IsInDir. The deployed code's IsInDir does not depend on whether the client sent
+   the PluginPath option (fix: an empty plugin path matches nothing), so histories with and without that option are
+   predicted by the same instance: toyA for the single-root workspace, toyA_all for the two-folder one *)
+Definition toyA_of (ind : file -> bool) : analysis :=
   {| text := list stmt; teqb := stmts_eqb; tempty := @is_nil stmt; syn := toy_syn; first := toy_first;
-     cross := toy_cross; in_dir := toy_in_dir |}.
+     cross := toy_cross; in_dir := ind |}.
+Definition toyA : analysis := toyA_of toy_in_dir.
+Definition toyA_all : analysis := toyA_of toy_all_in.
 
 (* ---- observation of a run, step by step ---- *)
 Definition toyU : list file := [0; 1; 2; 3; 4; 5].
@@ -133,22 +175,24 @@ Inductive mode := MAll | MEnd | MNone.
 
 Section Obs.
   Variable fx : fixes.
+  Variable ind : file -> bool.
+  Local Notation TA := (toyA_of ind).
 
-  Definition spec_list (w : world toyA) (v : emap) : list (file * list err) :=
+  Definition spec_list (w : world TA) (v : emap) : list (file * list err) :=
     nonempty_over (fun f => let m := vget v f in
-                            if constrained toyA w f
-                            then (let d := demanded toyA fx w f in if perm_eqb d m then m else d)
+                            if constrained TA w f
+                            then (let d := demanded TA fx w f in if perm_eqb d m then m else d)
                             else m).
 
   Definition step_obs := (list (file * list err) * option (list (file * list err)) * list (file * list err))%type.
 
   (* what the harness does for the "fresh" part: a server started on the disk of w, then told (didOpen) about the open
      documents outside the workspace, in file order *)
-  Definition fresh_run (w : world toyA) : list (file * list err) :=
-    let opens := filter (fun f => negb (toy_in_dir f) && ahas (ebuf w) f) toyU in
-    nonempty_over (view (snd (run toyA fx (disk w) (map (@AOpen toyA) opens)))).
+  Definition fresh_run (w : world TA) : list (file * list err) :=
+    let opens := filter (fun f => negb (ind f) && ahas (ebuf w) f) toyU in
+    nonempty_over (view (snd (run TA fx (disk w) (map (@AOpen TA) opens)))).
 
-  Fixpoint obs_steps (md : mode) (w : world toyA) (v : emap) (h : list (action toyA)) : list step_obs :=
+  Fixpoint obs_steps (md : mode) (w : world TA) (v : emap) (h : list (action TA)) : list step_obs :=
     let last := is_nil h in
     let want := is_nil (dirty w) && match md with MAll => true | MEnd => last | MNone => false end in
     let here := (nonempty_over (vget v),
@@ -156,12 +200,12 @@ Section Obs.
                  spec_list w v) in
     here :: match h with
             | [] => []
-            | a :: h' => let '(w', ps) := act toyA fx w a in obs_steps md w' (vapply v ps) h'
+            | a :: h' => let '(w', ps) := act TA fx w a in obs_steps md w' (vapply v ps) h'
             end.
 
-  Definition toy_obs (md : mode) (dk : amap (list stmt)) (h : list (action toyA)) : list step_obs :=
-    let '(w0, ps0) := init_world toyA fx dk in obs_steps md w0 (vapply [] ps0) h.
+  Definition toy_obs (md : mode) (dk : amap (list stmt)) (h : list (action TA)) : list step_obs :=
+    let '(w0, ps0) := init_world TA fx dk in obs_steps md w0 (vapply [] ps0) h.
 
-  Definition toy_conformant (dk : amap (list stmt)) (h : list (action toyA)) : bool := conformant toyA fx dk h.
-  Definition toy_classes (dk : amap (list stmt)) (h : list (action toyA)) : list N := classes toyA fx dk h.
+  Definition toy_conformant (dk : amap (list stmt)) (h : list (action TA)) : bool := conformant TA fx dk h.
+  Definition toy_classes (dk : amap (list stmt)) (h : list (action TA)) : list N := classes TA fx dk h.
 End Obs.
